@@ -102,6 +102,7 @@ gsl_vector* gsl_vector_alloc(const size_t n){
 void gsl_vector_free(gsl_vector* v){ if(!v) return; if(v->owner){ free(v->block->data); free(v->block);} free(v); }
 double gsl_vector_get(const gsl_vector* v, const size_t i){ if(i>=v->size) __verif_gsl_error(11); return v->data[i*v->stride]; }
 void gsl_vector_set(gsl_vector* v, const size_t i, double x){ if(i>=v->size) __verif_gsl_error(12); v->data[i*v->stride]=x; }
+void gsl_vector_set_all(gsl_vector* v, double x){ for(size_t i=0;i<v->size;i++) v->data[i*v->stride]=x; }
 void gsl_vector_set_zero(gsl_vector* v){ for(size_t i=0;i<v->size;i++) v->data[i*v->stride]=0.0; }
 size_t gsl_vector_max_index(const gsl_vector* v){ size_t k=0; double mx=v->data[0];
   for(size_t i=0;i<v->size;i++){ double x=v->data[i*v->stride]; if(x>mx){ mx=x; k=i; } } return k; }
